@@ -240,6 +240,8 @@ def run(case, max_steps=120000):
                 await dt
             else:
                 await aio.sleep(case['shutdown'])
+                for _ in range(case.get('shutdown_iters', 0)):    # position of the return inside that instant
+                    await aio.sleep(0)
             state['main_returned'] = (sim.now, sim.steps)
 
         def owner():
